@@ -293,6 +293,19 @@ def check(case):
         pe = np.asarray(periodic_pairwise_euclidean_distances(P, P, cell_length=None if cell is None else cell.tolist(), squared=squared), float)
         if np.abs(pe - S[2]).max() > 1e-9 * max(1.0, np.abs(pe).max()) + (1e-7 if cell is None else 0):
             r.fail("identity-precision-differs-from-periodic-euclidean", "max diff %.3g" % np.abs(pe - S[2]).max())
+    # single-precision INPUT (float32 coordinates, one set far outside the cell): the same real numbers handed over as
+    # float64 must give the same distances - the function works in double precision whatever the storage type
+    if fn == "euclid" and cell is not None:
+        A32 = (P + 20000.0 * np.sign(P + 1e-9)).astype(np.float32)
+        B32 = P.astype(np.float32)
+        try:
+            d32 = call(A32, B32)
+            d64 = call(A32.astype(np.float64), B32.astype(np.float64))
+            r.states += 2 * n * n
+            if d32.shape != d64.shape or np.abs(d32 - d64).max() > 1e-9 * max(1.0, diag):
+                r.fail("float32-input-loses-precision", "float32 arguments vs the same values as float64: max diff %.3g" % np.abs(d32 - d64).max())
+        except Exception as e:
+            r.fail("crash:%s" % type(e).__name__, "float32 input: %r" % e)
     # nothing may be remembered by object identity: the same arrays updated in place == fresh arrays
     Pa, Pb = P.copy(), P[: max(2, n // 3)].copy()
     first = call(Pa, Pb)
